@@ -301,6 +301,15 @@ NET_CLASSES = {"q": "QNetwork", "rainbow": "RainbowQNetwork", "cq": "ContinuousQ
                "det": "DeterministicActor", "sto": "StochasticActor", "val": "ValueNetwork"}
 
 
+ENCODER_CLASSES = {"EvolvableMLP": "agilerl.modules.mlp", "EvolvableSimBa": "agilerl.modules.simba",
+                   "EvolvableCNN": "agilerl.modules.cnn", "EvolvableLSTM": "agilerl.modules.lstm"}
+
+
+def _encoder_class(name: str):
+    import importlib
+    return getattr(importlib.import_module(ENCODER_CLASSES[name]), name)
+
+
 def _net_class(kind: str):
     import agilerl.networks.actors as A
     import agilerl.networks.q_networks as Q
@@ -338,6 +347,8 @@ def make(spec: dict):
     if kind in NET_CLASSES:
         cls = _net_class(kind)
         obs = _space(cfg.pop("obs"))
+        if cfg.get("encoder_cls") in ENCODER_CLASSES:          # a user supplied encoder class
+            cfg["encoder_cls"] = _encoder_class(cfg["encoder_cls"])
         args = {}
         if kind != "val":
             args["action_space"] = _space(cfg.pop("act"))
@@ -575,6 +586,59 @@ def gen_kwargs(rng: random.Random, spec: dict, m, name: str):
     return kw or None
 
 
+HYPER_ATTRS = ("hidden_size", "channel_size", "kernel_size", "stride_size", "num_layers", "num_blocks",
+               "latent_dim", "scale_factor")
+
+
+def hyper(m) -> dict:
+    """{module path: {architecture hyperparameter: value}} of a module and its nested evolvable modules"""
+    from agilerl.modules.base import EvolvableModule
+    out = {}
+    for n, mod in torch.nn.Module.named_modules(m):
+        if isinstance(mod, EvolvableModule):
+            d = {}
+            for a in HYPER_ATTRS:
+                try:
+                    v = getattr(mod, a)
+                except Exception:
+                    continue
+                if isinstance(v, (int, np.integer, list, tuple)):
+                    d[a] = json.loads(json.dumps(v, default=lambda o: int(o)))
+            out[n] = d
+    return out
+
+
+def locality_problems(H0: dict, H1: dict, op: str, name: str) -> list:
+    """a mutation method owned by module M may change M's own hyperparameters only:
+    * modules outside M's subtree keep theirs;
+    * `add_latent_node` / `remove_latent_node` change nothing but `latent_dim` of M, and
+      `recreate_network()` changes nothing at all - so M's descendants keep theirs too."""
+    owner = "" if op == "recreate" else ".".join(name.split(".")[:-1])
+    leaf = name.split(".")[-1]
+    strict = op == "recreate" or leaf in ("add_latent_node", "remove_latent_node")
+    bad = []
+    for n in H0:
+        if n not in H1:
+            continue
+        is_owner = n == owner
+        ancestor = owner == n or owner.startswith(n + ".") or n == ""
+        inside = n == owner or owner == "" or n.startswith(owner + ".")
+        if is_owner and not (op == "recreate"):
+            if strict:
+                a = {k: v for k, v in H0[n].items() if k != "latent_dim"}
+                b = {k: v for k, v in H1[n].items() if k != "latent_dim"}
+                if a != b:
+                    bad.append(f"{name} changed {a} -> {b} of its own module {n or '<root>'}")
+            continue
+        if ancestor and not is_owner and op != "recreate":
+            continue                      # an ancestor's view of the owner (e.g. wrapper properties)
+        if inside and not strict:
+            continue                      # a method may propagate into its own sub-modules (dueling head)
+        if H0[n] != H1[n]:
+            bad.append(f"{name} silently changed the architecture of {n or '<root>'}: {H0[n]} -> {H1[n]}")
+    return bad
+
+
 def nested_mods(m) -> dict:
     from agilerl.modules.base import EvolvableModule
     return {n: mod for n, mod in torch.nn.Module.named_modules(m) if n and isinstance(mod, EvolvableModule)}
@@ -624,6 +688,7 @@ def run_chain(chk: Check, case: dict):
             P0, B0 = snapshot(net)
             y0 = forward(spec, net, x, seed)
             mods0 = nested_mods(net)
+            H0 = hyper(net)
             np.random.seed(st["seed"] % (2 ** 32))
             torch.manual_seed(st["seed"])
             try:
@@ -661,6 +726,16 @@ def run_chain(chk: Check, case: dict):
                 res["problems"].append(f"{label}: raised {type(e).__name__}: {e}")
                 return res
             P1, B1 = snapshot(net)
+            H1 = hyper(net)
+            loc = locality_problems(H0, H1, op, name)
+            res["problems"] += [f"{label}: {t}" for t in loc]
+            if H0 == H1:
+                res["tags"].append("hyper-unchanged")
+                if not (same_arch(P0, P1) and same_arch(B0, B1)):
+                    res["problems"].append(f"{label}: no architecture hyperparameter changed, but parameter "
+                                           f"names/shapes did: " + "; ".join(
+                                               f"{k} {list(P0[k].shape)}->{list(P1[k].shape) if k in P1 else 'gone'}"
+                                               for k in P0 if k not in P1 or P0[k].shape != P1[k].shape)[:300])
             mods1 = nested_mods(net)
             for n in mods1:
                 if n in mods0 and mods0[n] is not mods1[n]:
@@ -693,7 +768,7 @@ KINDS = ["mlp", "cnn", "q", "lstm", "multi", "sto", "simba", "resnet", "rainbow"
          "mlp", "cnn", "multi", "q", "sto"]
 
 
-def gen_spec(rng: random.Random, kind: str | None = None) -> dict:
+def gen_spec(rng: random.Random, kind: str | None = None, fam: str | None = None) -> dict:
     kind = kind or rng.choice(KINDS)
     big = rng.random() < 0.5      # generous upper bounds (methods apply) vs tight ones (methods bound out)
     if kind == "mlp":
@@ -738,9 +813,12 @@ def gen_spec(rng: random.Random, kind: str | None = None) -> dict:
                    mlp_config=dict(hidden_size=[8], min_mlp_nodes=4, max_mlp_nodes=200 if big else 16),
                    min_latent_dim=4, max_latent_dim=128 if big else 12)
     else:
-        fam = rng.choice(["vec", "vec", "img", "dict", "seq", "simba", "resnet"])
+        fam = fam or rng.choice(["vec", "img", "dict", "dict", "seq", "simba", "resnet", "cls-mlp", "cls-mlp",
+                                 "cls-simba", "cls-cnn"])
         accepted = inspect.signature(_net_class(kind).__init__).parameters
-        if {"seq": "recurrent", "simba": "simba", "resnet": "encoder_cls"}.get(fam, "self") not in accepted:
+        need = {"seq": "recurrent", "simba": "simba", "resnet": "encoder_cls", "cls-mlp": "encoder_cls",
+                "cls-simba": "encoder_cls", "cls-cnn": "encoder_cls"}.get(fam, "self")
+        if need not in accepted:
             fam = "vec"
         cfg = dict(latent_dim=rng.choice([8, 12]), min_latent_dim=4, max_latent_dim=128 if big else 14)
         mlp_enc = dict(hidden_size=[rng.choice([8, 12])], min_mlp_nodes=4, max_mlp_nodes=200 if big else 16)
@@ -759,6 +837,22 @@ def gen_spec(rng: random.Random, kind: str | None = None) -> dict:
                        encoder_config=dict(input_shape=[2, 8, 8], channel_size=4, kernel_size=3, stride_size=1,
                                            num_blocks=1, scale_factor=2, min_channel_size=2,
                                            max_channel_size=64 if big else 8))
+        elif fam == "cls-mlp":
+            # explicit encoder class + the constructor arguments of that class (num_outputs is overwritten
+            # with the latent dimension by EvolvableNetwork)
+            cfg.update(obs=["box", [4]], encoder_cls="EvolvableMLP",
+                       encoder_config=dict(num_inputs=4, num_outputs=cfg["latent_dim"], hidden_size=[rng.choice([8, 12])],
+                                           layer_norm=rng.random() < 0.5, min_mlp_nodes=4,
+                                           max_mlp_nodes=200 if big else 16))
+        elif fam == "cls-simba":
+            cfg.update(obs=["box", [4]], encoder_cls="EvolvableSimBa",
+                       encoder_config=dict(num_inputs=4, num_outputs=cfg["latent_dim"], hidden_size=8, num_blocks=1,
+                                           scale_factor=2, min_mlp_nodes=4, max_mlp_nodes=200 if big else 16))
+        elif fam == "cls-cnn":
+            cfg.update(obs=["img", [2, 10, 10]], encoder_cls="EvolvableCNN",
+                       encoder_config=dict(input_shape=[2, 10, 10], num_outputs=cfg["latent_dim"], channel_size=[4],
+                                           kernel_size=[3], stride_size=[1], min_channel_size=2,
+                                           max_channel_size=64 if big else 8, layer_norm=rng.random() < 0.5))
         elif fam == "seq":
             cfg.update(obs=["box", [3, 4]], recurrent=True,
                        encoder_config=dict(hidden_size=8, num_layers=1, min_hidden_size=4,
@@ -782,8 +876,16 @@ def gen_spec(rng: random.Random, kind: str | None = None) -> dict:
     return {"kind": kind, "cfg": cfg}
 
 
-def gen_case(rng: random.Random, tier: str, kind: str | None = None) -> dict:
-    spec = gen_spec(rng, kind)
+def latent_step(rng: random.Random, name: str, inplace: bool) -> dict:
+    """a latent-node mutation: a small real change, a change refused by the hard limit, or the method's own draw"""
+    r = rng.random()
+    kw = {"numb_new_nodes": rng.choice([1, 2, 3])} if r < 0.5 else ({"numb_new_nodes": 10000} if r < 0.8 else None)
+    return {"op": "mut", "m": name, "kw": kw, "seed": rng.randrange(1 << 30), "inplace": inplace}
+
+
+def gen_case(rng: random.Random, tier: str, kind: str | None = None, fam: str | None = None,
+             directed: bool | None = None) -> dict:
+    spec = gen_spec(rng, kind, fam)
     case = {"suite": "mutation", "spec": spec, "seed": rng.randrange(1 << 30),
             "train": 2 if rng.random() < 0.25 else 0,
             "pair": spec["kind"] in NET_CLASSES and rng.random() < 0.3, "chain": []}
@@ -792,6 +894,33 @@ def gen_case(rng: random.Random, tier: str, kind: str | None = None) -> dict:
     torch.manual_seed(0)
     m = make(spec)
     methods = list(m.mutation_methods)
+    nested = spec["kind"] in NET_CLASSES or spec["kind"] == "multi"
+    latent = [n for n in methods if n.endswith("latent_node")]
+    deep = [n for n in methods if n.count(".") >= (2 if spec["kind"] in NET_CLASSES else 1)
+            and n.split(".")[-1] in ("add_channel", "add_node", "change_kernel")]
+    if directed is None:
+        directed = nested and bool(latent) and rng.random() < 0.5
+    if directed and latent:
+        # a nested mutation that really changes a sub-module, THEN a latent-node mutation of the module that
+        # re-creates that sub-module - on the same object (no clone in between) or through clones
+        inplace = rng.random() < 0.7
+        pre = [n for n in (deep or methods) if not n.endswith("latent_node")]
+        if pre:
+            name = rng.choice(pre)
+            kw = gen_kwargs(rng, spec, m, name) or {}
+            if name.endswith(("add_channel", "add_node")):
+                kw = {("numb_new_channels" if name.endswith("add_channel") else "numb_new_nodes"): rng.choice([1, 2, 3]),
+                      **({"hidden_layer": 0} if "hidden_layer" in inspect.signature(resolve_method(m, name)[1]).parameters else {})}
+            case["chain"].append({"op": "mut", "m": name, "kw": kw or None, "seed": rng.randrange(1 << 30),
+                                  "inplace": inplace})
+        # the latent mutation of the module that owns the mutated sub-module first, then any other
+        owners = sorted(latent, key=lambda n: -n.count(".")) if deep else latent
+        case["chain"].append(latent_step(rng, owners[0] if rng.random() < 0.7 else rng.choice(latent), inplace))
+        if rng.random() < 0.5:
+            case["chain"].append(latent_step(rng, rng.choice(latent), rng.random() < 0.5))
+        if rng.random() < 0.3:
+            case["chain"].append({"op": "recreate", "seed": rng.randrange(1 << 30)})
+        return case
     length = rng.randint(1, 4 if tier == "quick" else 7)
     for _ in range(length):
         r = rng.random()
@@ -801,10 +930,12 @@ def gen_case(rng: random.Random, tier: str, kind: str | None = None) -> dict:
             case["chain"].append({"op": "recreate", "seed": rng.randrange(1 << 30)})
         else:
             name = rng.choice(methods)
-            nested = spec["kind"] in NET_CLASSES or spec["kind"] == "multi"
+            if name.endswith("latent_node") and rng.random() < 0.6:
+                case["chain"].append(latent_step(rng, name, rng.random() < (0.5 if nested else 0.8)))
+                continue
             case["chain"].append({"op": "mut", "m": name, "kw": gen_kwargs(rng, spec, m, name),
                                   "seed": rng.randrange(1 << 30),
-                                  "inplace": rng.random() < (0.25 if nested else 0.8)})
+                                  "inplace": rng.random() < (0.5 if nested else 0.8)})
     return case
 
 
@@ -850,6 +981,17 @@ def suite_mutation(chk: Check, n: int) -> set:
     rng = chk.rng
     cases = [json.loads(f.read_text()) for f in sorted((ROOT / "corpus" / "C04").glob("mut_*.json"))]
     cases += [gen_case(rng, chk.tier, KINDS[i % len(KINDS)]) for i in range(n)]      # every kind in every run
+    # in every run: nested-then-latent chains on multi-input modules / networks, and networks built with an
+    # explicit encoder class
+    reps = 1 if chk.tier == "quick" else 12
+    for _ in range(reps):
+        cases.append(gen_case(rng, chk.tier, "multi", directed=True))
+        for kind in ("q", "det", "sto", "val", "cq"):
+            if "encoder_cls" not in inspect.signature(_net_class(kind).__init__).parameters:
+                continue
+            cases.append(gen_case(rng, chk.tier, kind, fam="dict", directed=True))
+            cases.append(gen_case(rng, chk.tier, kind, fam=rng.choice(["cls-mlp", "cls-simba", "cls-cnn"]),
+                                  directed=rng.random() < 0.7))
     nd, all_hits = 0, set()
     for case in cases:
         r = run_chain(chk, case)
@@ -1144,12 +1286,43 @@ def selftest(chk: Check) -> None:
         ok4 = bool(p or d)
     finally:
         mb.EvolvableModule.preserve_parameters = orig
+    # 5. EvolvableMultiInput rebuilds its extractors from the construction-time configs
+    from agilerl.modules import multi_input as mi
+    from agilerl.networks import base as nb
+    corpus = ROOT / "corpus" / "C04"
+    multi_case = json.loads((corpus / "mut_multi_nested_then_latent.json").read_text())
+    cls_case = json.loads((corpus / "mut_encoder_cls_latent.json").read_text())
+    if noticed(multi_case) or noticed(cls_case):
+        raise InfraError("C04 self-test: the unpatched implementation is flagged on the directed corpus cases")
+    orig_prop = mi.EvolvableMultiInput.init_dicts
+    mi.EvolvableMultiInput.init_dicts = property(lambda self: self._init_dicts)
+    try:
+        ok5 = noticed(multi_case)
+    finally:
+        mi.EvolvableMultiInput.init_dicts = orig_prop
+    # 6. recreate_encoder forgets preserve_parameters for a user supplied encoder class
+    orig_re = nb.EvolvableNetwork.recreate_encoder
+
+    def no_preserve_cls(self):
+        if self.encoder_cls is None:
+            return orig_re(self)
+        init_dict = self.encoder.init_dict
+        init_dict["num_outputs"] = self.latent_dim
+        self.encoder = self.encoder_cls(**init_dict)
+    nb.EvolvableNetwork.recreate_encoder = no_preserve_cls
+    try:
+        ok6 = noticed(cls_case)
+    finally:
+        nb.EvolvableNetwork.recreate_encoder = orig_re
     missed = [n for n, ok in (("wrong-corner copy", ok1), ("recreate without preserve", ok2),
-                              ("clone without load_state_dict", ok3), ("wrong-corner copy (pure suite)", ok4)) if not ok]
+                              ("clone without load_state_dict", ok3), ("wrong-corner copy (pure suite)", ok4),
+                              ("multi-input rebuilt from stale configs", ok5),
+                              ("encoder_cls encoder re-created without preserve", ok6)) if not ok]
     if missed:
         raise InfraError("C04 self-test: seeded fault(s) not noticed: " + ", ".join(missed))
-    chk.notes.append("self-test: wrong-corner copy, recreate_network without preserve, clone without "
-                     "load_state_dict all detected (mutation and pure suites)")
+    chk.notes.append("self-test: wrong-corner copy, recreate_network without preserve, clone without load_state_dict, "
+                     "multi-input extractors rebuilt from construction-time configs, encoder_cls encoder re-created "
+                     "without preserve - all detected")
 
 
 def replay(chk: Check, path: str) -> int:
